@@ -48,8 +48,13 @@ var (
 	pps = []byte{0x68, 0xEB, 0xEC, 0xB2, 0x2C}
 	asc = []byte{0x12, 0x10}
 
-	cnt struct{ pub, pubFail, sub, api, kick, rtp, custom int64 }
-	end time.Time
+	cnt struct{ pub, pubFail, sub, api, kick, rtp, custom, aimed, tickAfterDispose int64 }
+	// deadline of the current server lifetime (unix ns); the main goroutine moves it while the workers poll it
+	endNs atomic.Int64
+
+	// arrival times of the periodic on_update notification: one per tick of ServerManager.RunLoop
+	updMu    sync.Mutex
+	updTimes []time.Time
 )
 
 func freePort() int {
@@ -61,7 +66,51 @@ func freePort() int {
 	return l.Addr().(*net.TCPAddr).Port
 }
 
-func alive() bool { return time.Now().Before(end) }
+func alive() bool { return time.Now().UnixNano() < endNs.Load() }
+
+// nextTick predicts the first tick of the server's 1 s ticker at or after t from the arrival times of the
+// on_update notifications (each is sent right after a tick; the least delayed one gives the phase)
+func nextTick(t time.Time) (time.Time, bool) {
+	updMu.Lock()
+	defer updMu.Unlock()
+	if len(updTimes) < 2 {
+		return time.Time{}, false
+	}
+	ref := updTimes[0]
+	min := time.Duration(0)
+	for _, a := range updTimes {
+		off := a.Sub(ref) % time.Second
+		if off > time.Second/2 {
+			off -= time.Second
+		}
+		if off < min {
+			min = off
+		}
+	}
+	tick := ref.Add(min)
+	for tick.Before(t) {
+		tick = tick.Add(time.Second)
+	}
+	return tick, true
+}
+
+// ghosts leaves n groups without any session behind (a subscriber of a stream nobody publishes comes and goes):
+// the next tick finds them inactive and disposes them
+func ghosts(httpPort, n int) {
+	var conns []net.Conn
+	for i := 0; i < n; i++ {
+		c, err := net.DialTimeout("tcp", fmt.Sprintf("127.0.0.1:%d", httpPort), time.Second)
+		if err != nil {
+			continue
+		}
+		fmt.Fprintf(c, "GET /live/ghost%d.flv HTTP/1.1\r\nHost: 127.0.0.1\r\n\r\n", i)
+		conns = append(conns, c)
+	}
+	time.Sleep(60 * time.Millisecond)
+	for _, c := range conns {
+		c.Close()
+	}
+}
 
 func sleepMs(r *rand.Rand, lo, hi int) {
 	time.Sleep(time.Duration(lo+r.Intn(hi-lo+1)) * time.Millisecond)
@@ -392,6 +441,12 @@ func notifySink() string {
 	}
 	go func() {
 		_ = http.Serve(l, http.HandlerFunc(func(w http.ResponseWriter, r *http.Request) {
+			if r.URL.Path == "/on_update" {
+				now := time.Now()
+				updMu.Lock()
+				updTimes = append(updTimes, now)
+				updMu.Unlock()
+			}
 			_, _ = io.Copy(io.Discard, r.Body)
 			w.WriteHeader(http.StatusOK)
 		}))
@@ -430,8 +485,8 @@ func main() {
 		cycles++
 	}
 	dumpLockTrace()
-	fmt.Printf("lalrace: %ds seed=%d server_lifetimes=%d publishes=%d (refused %d) subscriptions=%d api_calls=%d kicks=%d rtp_pub=%d customize_pub=%d\n",
-		secs, seed, cycles, cnt.pub, cnt.pubFail, cnt.sub, cnt.api, cnt.kick, cnt.rtp, cnt.custom)
+	fmt.Printf("lalrace: %ds seed=%d server_lifetimes=%d publishes=%d (refused %d) subscriptions=%d api_calls=%d kicks=%d rtp_pub=%d customize_pub=%d dispose_aimed_at_tick=%d tick_ran_after_dispose=%d\n",
+		secs, seed, cycles, cnt.pub, cnt.pubFail, cnt.sub, cnt.api, cnt.kick, cnt.rtp, cnt.custom, cnt.aimed, cnt.tickAfterDispose)
 }
 
 func runCycle(seed int64, secs int, tmp string, sink string) {
@@ -453,7 +508,7 @@ func runCycle(seed int64, secs int, tmp string, sink string) {
  "http_notify": {"enable": true, "update_interval_sec": 1, "on_update": "%[7]s/on_update", "on_pub_start": "%[7]s/on_pub_start", "on_pub_stop": "%[7]s/on_pub_stop", "on_sub_start": "%[7]s/on_sub_start", "on_sub_stop": "%[7]s/on_sub_stop", "on_relay_pull_start": "%[7]s/on_relay_pull_start", "on_relay_pull_stop": "%[7]s/on_relay_pull_stop", "on_rtmp_connect": "%[7]s/on_rtmp_connect", "on_server_start": "%[7]s/on_server_start", "on_hls_make_ts": "%[7]s/on_hls_make_ts"},
  "simple_auth": {"key": "k"},
  "pprof": {"enable": false},
- "log": {"level": 5, "filename": "%s/lal.log", "is_to_stdout": false, "is_rotate_daily": false, "short_file_flag": false, "assert_behavior": 1},
+ "log": {"level": 5, "filename": "%[6]s/lal.log", "is_to_stdout": false, "is_rotate_daily": false, "short_file_flag": false, "assert_behavior": 1},
  "debug": {"log_group_interval_sec": 1, "log_group_max_group_num": 10, "log_group_max_sub_num_per_group": 10}
 }`, rtmpPort, httpPort, tmp, rtspPort, apiPort, tmp, sink)
 
@@ -467,7 +522,11 @@ func runCycle(seed int64, secs int, tmp string, sink string) {
 		}
 		time.Sleep(50 * time.Millisecond)
 	}
-	end = time.Now().Add(time.Duration(secs) * time.Second)
+	updMu.Lock()
+	updTimes = nil
+	updMu.Unlock()
+	end := time.Now().Add(time.Duration(secs) * time.Second)
+	endNs.Store(end.UnixNano())
 
 	var wg sync.WaitGroup
 	n := int64(0)
@@ -499,7 +558,32 @@ func runCycle(seed int64, secs int, tmp string, sink string) {
 
 	allDone := make(chan struct{})
 	go func() { wg.Wait(); close(allDone) }()
-	// shutdown starts at the deadline, while the workers are still closing their sessions
+	// shutdown starts at the deadline, while the workers are still closing their sessions.
+	// The deadline is moved next to a tick of ServerManager.RunLoop: Dispose then holds the server mutex when the
+	// tick fires, the tick queues behind it and runs after it, and it finds groups without sessions (the ghosts)
+	// that Dispose has disposed already
+	aimed := false
+	if secs >= 4 {
+		time.Sleep(time.Until(end.Add(-1300 * time.Millisecond)))
+		if tick, ok := nextTick(end.Add(-300 * time.Millisecond)); ok {
+			leads := []int{300, 700, 1200, 2000, 3000, 4500, 6500, 9000}
+			lead := time.Duration(leads[rand.New(rand.NewSource(seed)).Intn(len(leads))]) * time.Microsecond
+			time.Sleep(time.Until(tick.Add(-650 * time.Millisecond)))
+			ghosts(httpPort, 12)
+			end = tick.Add(-lead)
+			endNs.Store(end.Add(-time.Millisecond).UnixNano())
+			time.Sleep(time.Until(end.Add(-20 * time.Millisecond)))
+			aimed = lals.StatGroup("ghost0") != nil
+			if aimed {
+				cnt.aimed++
+			}
+			for time.Now().Before(end) { // the last stretch without the scheduler's sleep granularity
+				if time.Until(end) > 2*time.Millisecond {
+					time.Sleep(time.Millisecond)
+				}
+			}
+		}
+	}
 	time.Sleep(time.Until(end))
 	disposed := make(chan struct{})
 	go func() { lals.Dispose(); close(disposed) }()
@@ -520,5 +604,9 @@ func runCycle(seed int64, secs int, tmp string, sink string) {
 	case <-time.After(10 * time.Second):
 		fmt.Printf("lalrace: STUCK RunLoop did not return within 10s after Dispose\n")
 		os.Exit(3)
+	}
+	// the ghosts were there right before Dispose and Dispose erases nothing: a tick reaped them after it
+	if aimed && lals.StatGroup("ghost0") == nil {
+		cnt.tickAfterDispose++
 	}
 }
